@@ -183,7 +183,7 @@ def _fork_map(fn, tasks, nproc):
         sel.close()
 
 
-def in_interpreter(flags, module: str, func: str, arg, timeout: int = 900):
+def in_interpreter(flags, module: str, func: str, arg, timeout: int = 900, env: dict | None = None):
     """Run ``module.func(arg)`` in a brand-new interpreter started with ``flags`` (e.g. ["-O"]) and
     return its picklable result (a Part dict).  The library must behave the same whatever the
     interpreter options are."""
@@ -199,8 +199,10 @@ def in_interpreter(flags, module: str, func: str, arg, timeout: int = 900):
             "arg=pickle.loads(base64.b64decode(sys.stdin.read()));"
             f"res=getattr(m,{func!r})(arg);"
             "sys.stdout.write('RESULT='+base64.b64encode(pickle.dumps(res)).decode())")
+    import os
+    full_env = dict(os.environ, **env) if env else None
     p = subprocess.run([sys.executable, *flags, "-c", code], input=base64.b64encode(pickle.dumps(arg)).decode(),
-                       capture_output=True, text=True, cwd=str(VERIF), timeout=timeout)
+                       capture_output=True, text=True, cwd=str(VERIF), timeout=timeout, env=full_env)
     line = [ln for ln in p.stdout.splitlines() if ln.startswith("RESULT=")]
     if p.returncode != 0 or not line:
         raise HarnessError(f"interpreter {flags} running {module}.{func} failed: {p.stderr[-1500:]}")
